@@ -9,7 +9,7 @@
    deal of its index on the recorded commitments), [correct_justification],
    [signed_approval], [on_committed_poly]. *)
 From Coq Require Import ZArith Znumtheory List Bool.
-From Kyber Require Import Algebra.Zq Algebra.Grp Share.ShamirSM VSS.VssSM VSS.VssProofs VSS.VssRun.
+From Kyber Require Import Algebra.Zq Algebra.Grp Share.ShamirSM VSS.VssSM VSS.VssProofs VSS.VssHonest VSS.VssRun.
 Import ListNotations.
 Local Open Scope Z_scope.
 
@@ -149,13 +149,201 @@ Theorem C10_honest_secret_commitment :
 Proof. exact honest_secret_commitment. Qed.
 Print Assumptions C10_honest_secret_commitment.
 
-(* honest_run_certified_partial: "every order of the n approvals certifies the
-   deal at every verifier and at the dealer" is NOT proved as a theorem; it is
-   checked by the correspondence run (honest scenarios deliver all responses in
-   random orders with duplicates; the model must predict DealCertified after
-   every step) and by the honest-run oracles.  Proved above: each verifier
-   approves, the certification predicate is implied by / implies the counts
-   (C10_certified_counts), recovery and the published commitment. *)
+(* ---------------------------------------------------------------------------
+   The honest run under EVERY order and multiplicity of the approvals
+   (theories/VSS/VssHonest.v).  [happ k] is the approval verifier k signs for the
+   honest dealer's deal; [ks] is an arbitrary list of verifier indices: every
+   order, duplicates, the verifier's own approval echoed back or not.
+   [clean_state n t S a]: in aggregator a exactly the verifiers of S are recorded
+   as approvals, nobody complains, badDealer = false, threshold t. *)
+
+(* ProcessEncryptedDeal of the honest deal is an approval and leaves this state *)
+Theorem C10_honest_process :
+  forall q (Hsid : zq q -> list (zq q) -> list (zq q) -> Z -> sidt) var hH, prime q ->
+  forall (dealer : zq q) (vs : list (zq q)) t (f g : list (zq q)),
+    2 <= t <= Z.of_nat (length vs) -> length f = Z.to_nat t -> (var = Rabin -> length g = length f) ->
+    forall i, 0 <= i < Z.of_nat (length vs) ->
+    process_encrypted_deal q Hsid var hH (new_verifier q var i (nth_pub q vs i) dealer vs)
+                           (honest_enc q Hsid var hH dealer vs t f g i)
+    = (with_agg q (new_verifier q var i (nth_pub q vs i) dealer vs) (hagg q Hsid var hH dealer vs t f g i),
+       OResp (happ q Hsid var hH dealer vs t f g i)).
+Proof. exact honest_process. Qed.
+Print Assumptions C10_honest_process.
+
+(* verifier i: after its deal and the approvals ks in any order / multiplicity,
+   exactly the distinct verifiers S = {i} + ks are approvals, no complaint, and
+   DealCertified <-> S is everybody;  DealCertified after SetTimeout <-> |S| >= t *)
+Theorem C10_honest_verifier_certifies :
+  forall q (Hsid : zq q -> list (zq q) -> list (zq q) -> Z -> sidt) var hH, prime q ->
+  forall (dealer : zq q) (vs : list (zq q)) t (f g : list (zq q)),
+    2 <= t <= Z.of_nat (length vs) -> length f = Z.to_nat t -> (var = Rabin -> length g = length f) ->
+    Z.of_nat (length vs) < 4294967295 ->
+    forall i ks, 0 <= i < Z.of_nat (length vs) -> (forall k, In k ks -> 0 <= k < Z.of_nat (length vs)) ->
+    let v1 := fst (process_encrypted_deal q Hsid var hH (new_verifier q var i (nth_pub q vs i) dealer vs)
+                                          (honest_enc q Hsid var hH dealer vs t f g i)) in
+    let s := vrun q Hsid var hH v1 (map (fun k => VResp (happ q Hsid var hH dealer vs t f g k)) ks) in
+    let S := nodup Z.eq_dec (i :: ks) in
+    snd (process_encrypted_deal q Hsid var hH (new_verifier q var i (nth_pub q vs i) dealer vs)
+                                (honest_enc q Hsid var hH dealer vs t f g i))
+      = OResp (happ q Hsid var hH dealer vs t f g i) /\
+    exists a, v_agg q s = Some a /\ clean_state q (Z.of_nat (length vs)) t S a /\
+              a_deal q a = Some (dealer_deal q var hH (Hsid dealer vs (dealer_commits q var hH f g) t) f g t i) /\
+              count_where q is_approved a = Z.of_nat (length S) /\
+              count_where q is_complaint a = 0 /\
+              (v_certified q var s = true <-> Z.of_nat (length S) = Z.of_nat (length vs)) /\
+              (v_certified q var (fst (vstep q Hsid var hH s VTimeout)) = true <-> t <= Z.of_nat (length S)).
+Proof. exact honest_verifier_certifies. Qed.
+Print Assumptions C10_honest_verifier_certifies.
+
+(* the dealer: the same, and SecretCommit = secret*G is released when certified *)
+Theorem C10_honest_dealer_certifies :
+  forall q (Hsid : zq q -> list (zq q) -> list (zq q) -> Z -> sidt) var hH
+         (dealer : zq q) (vs : list (zq q)) t (f g : list (zq q)),
+    2 <= t <= Z.of_nat (length vs) -> length f = Z.to_nat t -> (var = Rabin -> length g = length f) ->
+    Z.of_nat (length vs) < 4294967295 ->
+    forall ks, (forall k, In k ks -> 0 <= k < Z.of_nat (length vs)) ->
+    let s := drun q var (new_dealer q Hsid var hH dealer vs t f g)
+                  (map (fun k => DResp (happ q Hsid var hH dealer vs t f g k)) ks) in
+    let S := nodup Z.eq_dec ks in
+    clean_state q (Z.of_nat (length vs)) t S (dl_agg q s) /\
+    count_where q is_approved (dl_agg q s) = Z.of_nat (length S) /\
+    (deal_certified q var (dl_agg q s) = true <-> Z.of_nat (length S) = Z.of_nat (length vs)) /\
+    (deal_certified q var (dl_agg q (fst (dstep q var s DTimeout))) = true <-> t <= Z.of_nat (length S)) /\
+    (deal_certified q var (dl_agg q s) = true -> secret_commit q var s = Some (smul (hd zzero f) pbase)).
+Proof. exact honest_dealer_certifies. Qed.
+Print Assumptions C10_honest_dealer_certifies.
+
+(* the time-out in the MIDDLE of the approvals.  Pedersen: a flag, later approvals
+   still count.  Rabin: cleanVerifiers files complaints for the silent verifiers,
+   later approvals are refused, only those before the time-out count. *)
+Theorem C10_honest_timeout_middle_pedersen :
+  forall q (Hsid : zq q -> list (zq q) -> list (zq q) -> Z -> sidt) var hH, prime q ->
+  forall (dealer : zq q) (vs : list (zq q)) t (f g : list (zq q)),
+    2 <= t <= Z.of_nat (length vs) -> length f = Z.to_nat t -> (var = Rabin -> length g = length f) ->
+    Z.of_nat (length vs) < 4294967295 ->
+    forall i ks1 ks2, var = Pedersen ->
+    0 <= i < Z.of_nat (length vs) -> (forall k, In k (ks1 ++ ks2) -> 0 <= k < Z.of_nat (length vs)) ->
+    let v1 := fst (process_encrypted_deal q Hsid var hH (new_verifier q var i (nth_pub q vs i) dealer vs)
+                                          (honest_enc q Hsid var hH dealer vs t f g i)) in
+    let s := vrun q Hsid var hH v1 (map (fun k => VResp (happ q Hsid var hH dealer vs t f g k)) ks1 ++ [VTimeout]
+                                    ++ map (fun k => VResp (happ q Hsid var hH dealer vs t f g k)) ks2) in
+    v_certified q var s = true <-> t <= Z.of_nat (length (nodup Z.eq_dec (i :: ks1 ++ ks2))).
+Proof. exact honest_verifier_timeout_middle_pedersen. Qed.
+Print Assumptions C10_honest_timeout_middle_pedersen.
+
+Theorem C10_honest_timeout_middle_rabin :
+  forall q (Hsid : zq q -> list (zq q) -> list (zq q) -> Z -> sidt) var hH, prime q ->
+  forall (dealer : zq q) (vs : list (zq q)) t (f g : list (zq q)),
+    2 <= t <= Z.of_nat (length vs) -> length f = Z.to_nat t -> (var = Rabin -> length g = length f) ->
+    Z.of_nat (length vs) < 4294967295 ->
+    forall i ks1 ks2, var = Rabin ->
+    0 <= i < Z.of_nat (length vs) -> (forall k, In k (ks1 ++ ks2) -> 0 <= k < Z.of_nat (length vs)) ->
+    let v1 := fst (process_encrypted_deal q Hsid var hH (new_verifier q var i (nth_pub q vs i) dealer vs)
+                                          (honest_enc q Hsid var hH dealer vs t f g i)) in
+    let s := vrun q Hsid var hH v1 (map (fun k => VResp (happ q Hsid var hH dealer vs t f g k)) ks1 ++ [VTimeout]
+                                    ++ map (fun k => VResp (happ q Hsid var hH dealer vs t f g k)) ks2) in
+    v_certified q var s = true <-> t <= Z.of_nat (length (nodup Z.eq_dec (i :: ks1))).
+Proof. exact honest_verifier_timeout_middle_rabin. Qed.
+Print Assumptions C10_honest_timeout_middle_rabin.
+
+(* in the property's words: a certified honest deal is recoverable - when verifier i
+   reports it certified (before or after its time-out) at least t verifiers hold
+   deals, and any t or more of the deals the verifiers hold ([held_deal k] = the deal
+   in verifier k's state after ProcessEncryptedDeal), in any order, reconstruct
+   exactly the dealer's secret *)
+Theorem C10_certified_honest_deal_recoverable :
+  forall q (Hsid : zq q -> list (zq q) -> list (zq q) -> Z -> sidt) var hH, prime q ->
+  forall (dealer : zq q) (vs : list (zq q)) t (f g : list (zq q)),
+    2 <= t <= Z.of_nat (length vs) -> length f = Z.to_nat t -> (var = Rabin -> length g = length f) ->
+    Z.of_nat (length vs) < 4294967295 ->
+    forall i ks, Z.of_nat (length vs) < q - 1 ->
+    0 <= i < Z.of_nat (length vs) -> (forall k, In k ks -> 0 <= k < Z.of_nat (length vs)) ->
+    let v1 := fst (process_encrypted_deal q Hsid var hH (new_verifier q var i (nth_pub q vs i) dealer vs)
+                                          (honest_enc q Hsid var hH dealer vs t f g i)) in
+    let s := vrun q Hsid var hH v1 (map (fun k => VResp (happ q Hsid var hH dealer vs t f g k)) ks) in
+    v_certified q var s = true \/ v_certified q var (fst (vstep q Hsid var hH s VTimeout)) = true ->
+    t <= Z.of_nat (length (nodup Z.eq_dec (i :: ks))) /\
+    forall idxs ds,
+      NoDup idxs -> (forall k, In k idxs -> 0 <= k < Z.of_nat (length vs)) -> t <= Z.of_nat (length idxs) ->
+      map (held_deal q Hsid var hH dealer vs t f g) idxs = map Some ds ->
+      recover q ds t = Some (hd zzero f).
+Proof. exact certified_honest_deal_recoverable. Qed.
+Print Assumptions C10_certified_honest_deal_recoverable.
+
+(* ... and when the dealer reports it certified, SecretCommit commits to exactly
+   the secret any t deals reconstruct *)
+Theorem C10_certified_dealer_secret_recoverable :
+  forall q (Hsid : zq q -> list (zq q) -> list (zq q) -> Z -> sidt) var hH, prime q ->
+  forall (dealer : zq q) (vs : list (zq q)) t (f g : list (zq q)),
+    2 <= t <= Z.of_nat (length vs) -> length f = Z.to_nat t -> (var = Rabin -> length g = length f) ->
+    Z.of_nat (length vs) < 4294967295 ->
+    forall ks, Z.of_nat (length vs) < q - 1 -> (forall k, In k ks -> 0 <= k < Z.of_nat (length vs)) ->
+    let s := drun q var (new_dealer q Hsid var hH dealer vs t f g)
+                  (map (fun k => DResp (happ q Hsid var hH dealer vs t f g k)) ks) in
+    deal_certified q var (dl_agg q s) = true \/ deal_certified q var (dl_agg q (fst (dstep q var s DTimeout))) = true ->
+    t <= Z.of_nat (length (nodup Z.eq_dec ks)) /\
+    forall idxs, NoDup idxs -> (forall k, In k idxs -> 0 <= k < Z.of_nat (length vs)) -> t <= Z.of_nat (length idxs) ->
+      exists sec,
+        recover q (map (dealer_deal q var hH (Hsid dealer vs (dealer_commits q var hH f g) t) f g t) idxs) t = Some sec /\
+        sec = hd zzero f /\
+        (deal_certified q var (dl_agg q s) = true -> secret_commit q var s = Some (smul sec pbase)).
+Proof. exact certified_dealer_secret_recoverable. Qed.
+Print Assumptions C10_certified_dealer_secret_recoverable.
+
+(* DUAL: fewer than t distinct approving verifiers never certify the honest deal,
+   in any order or multiplicity, before or after the time-out ... *)
+Theorem C10_honest_few_never_certify :
+  forall q (Hsid : zq q -> list (zq q) -> list (zq q) -> Z -> sidt) var hH, prime q ->
+  forall (dealer : zq q) (vs : list (zq q)) t (f g : list (zq q)),
+    2 <= t <= Z.of_nat (length vs) -> length f = Z.to_nat t -> (var = Rabin -> length g = length f) ->
+    Z.of_nat (length vs) < 4294967295 ->
+    forall i ks, 0 <= i < Z.of_nat (length vs) -> (forall k, In k ks -> 0 <= k < Z.of_nat (length vs)) ->
+    Z.of_nat (length (nodup Z.eq_dec (i :: ks))) < t ->
+    let v1 := fst (process_encrypted_deal q Hsid var hH (new_verifier q var i (nth_pub q vs i) dealer vs)
+                                          (honest_enc q Hsid var hH dealer vs t f g i)) in
+    let s := vrun q Hsid var hH v1 (map (fun k => VResp (happ q Hsid var hH dealer vs t f g k)) ks) in
+    v_certified q var s = false /\ v_certified q var (fst (vstep q Hsid var hH s VTimeout)) = false.
+Proof. exact honest_few_never_certify. Qed.
+Print Assumptions C10_honest_few_never_certify.
+
+(* ... and, for ARBITRARY deals and responses (genuine, forged, duplicated, any
+   order) and time-outs anywhere, as long as no justification is processed:
+   certified implies that the threshold of the held deal is at most the number of
+   distinct indices that responded (the verifier itself included); the dealer
+   likewise with its own t *)
+Theorem C10_few_never_certify_verifier :
+  forall q (Hsid : zq q -> list (zq q) -> list (zq q) -> Z -> sidt) var hH idx pub dealer vs
+         (h : list (vop q)) (a : agg q),
+    (forall j, ~ In (VJust j) h) ->
+    v_agg q (vrun q Hsid var hH (new_verifier q var idx pub dealer vs) h) = Some a ->
+    deal_certified q var a = true ->
+    a_t q a <= Z.of_nat (length (nodup Z.eq_dec (idx :: resp_idxs q h))).
+Proof. exact few_never_certify_verifier. Qed.
+Print Assumptions C10_few_never_certify_verifier.
+
+Theorem C10_few_never_certify_dealer :
+  forall q (Hsid : zq q -> list (zq q) -> list (zq q) -> Z -> sidt) var hH dealer vs t f g (h : list (dop q)),
+    deal_certified q var (dl_agg q (drun q var (new_dealer q Hsid var hH dealer vs t f g) h)) = true ->
+    t <= Z.of_nat (length (nodup Z.eq_dec (dresp_idxs q h))).
+Proof. exact few_never_certify_dealer. Qed.
+Print Assumptions C10_few_never_certify_dealer.
+
+(* the certification predicate on a state in which exactly S approved *)
+Theorem C10_clean_state_certified :
+  forall q var n t S (a : agg q),
+    clean_state q n t S a -> 2 <= t <= n -> n < 4294967296 ->
+    (deal_certified q var a = true <->
+     match var with
+     | Pedersen => if a_timeout q a then t <= Z.of_nat (length S) else Z.of_nat (length S) = n
+     | Rabin => Z.of_nat (length S) = n
+     end) /\
+    (deal_certified q var (set_timeout q var a) = true <-> t <= Z.of_nat (length S)).
+Proof.
+  intros q var n t S a C T N. split.
+  - exact (clean_state_certified q (fun _ _ _ _ => []) var (@zzero q) n t S a C T N).
+  - exact (clean_state_timeout_certified q (fun _ _ _ _ => []) var (@zzero q) n t S a C T N).
+Qed.
+Print Assumptions C10_clean_state_certified.
 
 (* non-vacuity: a concrete Pedersen run over the order-(2^61-1) group, n = 3,
    t = 2, f = 5 + 7x: the three verifiers approve, the dealer and verifier 0
@@ -179,3 +367,33 @@ Example C10_nonvacuous :
   option_map (@val Q) (recover Q [nth 2 (dl_deals Q D) (wdeal [] 0 0 0 0 0 []); nth 0 (dl_deals Q D) (wdeal [] 0 0 0 0 0 [])] 2) = Some 5 /\
   v_bad Q bad = true /\ v_certified Q Pedersen bad = false.
 Proof. vm_compute. repeat split. Qed.
+
+(* non-vacuity of the honest-run theorems: Rabin, n = 4, t = 3, f = 5 + 7x + 2x^2,
+   g = 1 + 3x + 4x^2, H = 6*G.  Verifier 1 receives the approvals in the order
+   3, 1 (its own, echoed), 3 (duplicate), 0: three distinct approvers {1,3,0}:
+   not certified yet (verifier 2 is silent), certified after the time-out; with
+   only 3, 3, 1 (two distinct) it is not certified even after the time-out; the
+   dealer, given 2, 0, 2, 3, 1, certifies at once and releases secret*G = 5;
+   the deals held by verifiers 3, 0, 1 recover 5. *)
+Example C10_honest_nonvacuous :
+  let Hs := Hsid_enc in
+  let vs := map fz [11; 12; 13; 14] in
+  let f := map fz [5; 7; 2] in
+  let g := map fz [1; 3; 4] in
+  let ha := happ Q Hs Rabin (fz 6) (fz 9) vs 3 f g in
+  let v1 := fst (process_encrypted_deal Q Hs Rabin (fz 6) (new_verifier Q Rabin 1 (nth_pub Q vs 1) (fz 9) vs)
+                                        (honest_enc Q Hs Rabin (fz 6) (fz 9) vs 3 f g 1)) in
+  let s := vrun Q Hs Rabin (fz 6) v1 (map (fun k => VResp (ha k)) [3; 1; 3; 0]) in
+  let s2 := vrun Q Hs Rabin (fz 6) v1 (map (fun k => VResp (ha k)) [3; 3; 1]) in
+  let D := drun Q Rabin (new_dealer Q Hs Rabin (fz 6) (fz 9) vs 3 f g) (map (fun k => DResp (ha k)) [2; 0; 2; 3; 1]) in
+  v_certified Q Rabin s = false /\
+  v_certified Q Rabin (fst (vstep Q Hs Rabin (fz 6) s VTimeout)) = true /\
+  v_certified Q Rabin (fst (vstep Q Hs Rabin (fz 6) s2 VTimeout)) = false /\
+  deal_certified Q Rabin (dl_agg Q D) = true /\
+  option_map (@val Q) (secret_commit Q Rabin D) = Some 5 /\
+  map (fun k => match held_deal Q Hs Rabin (fz 6) (fz 9) vs 3 f g k with Some d => d_i Q d | None => -1 end) [3; 0; 1] = [3; 0; 1] /\
+  option_map (@val Q)
+    (recover Q (flat_map (fun k => match held_deal Q Hs Rabin (fz 6) (fz 9) vs 3 f g k with Some d => [d] | None => [] end) [3; 0; 1]) 3)
+    = Some 5.
+Proof. vm_compute. repeat split. Qed.
+
